@@ -42,3 +42,27 @@ def run (bz : List (Nat × α) → Nat → Nat → α) : List (Nat × α) → Li
   | h, (n, nfin) :: rest => run bz (h ++ [(n, bz h n nfin)]) rest
 
 end Model.Warmup
+
+/-! ### after /repo 959029e (C11, added): a batch without a single finite draw is drawn again
+
+  `Mutator.run` at beta = 0 now repeats `np.random.rand` → prior transform → likelihood until the batch has a finite
+  draw (at most `1000·n` draws, then ValueError); the discarded draws count: `n_drawn` accumulates, and
+
+      if np.any(inf_logl_mask) or n_drawn > n_particles:   logz := log(n_finite / n_drawn)
+
+  A committed batch is therefore `(n, nfin, ndrawn)` with `nfin ≥ 1` and `ndrawn = K·n`, `K` = number of blocks drawn.
+  `batchZ` above stays as the model of the rule BEFORE the fix (and of every iteration in which nothing is redrawn:
+  `batchZR h n nfin n = batchZ h n nfin`). -/
+namespace Model.Warmup
+variable {α : Type} [Sc α]
+
+/-- evidence recorded for a stored batch of `n` particles, `nfin` of them finite draws, after `ndrawn` draws in all -/
+def batchZR (h : List (Nat × α)) (n nfin ndrawn : Nat) : α :=
+  if nfin < n ∨ n < ndrawn then Sc.div (Sc.ofNat nfin) (Sc.ofNat ndrawn) else reweightZ h
+
+/-- run warm-up iterations given `(n, nfin, ndrawn)` per iteration; returns the committed (n_t, Z_t) -/
+def runR : List (Nat × α) → List (Nat × Nat × Nat) → List (Nat × α)
+  | h, [] => h
+  | h, (n, nfin, ndrawn) :: rest => runR (h ++ [(n, batchZR h n nfin ndrawn)]) rest
+
+end Model.Warmup
